@@ -406,6 +406,12 @@ func (l *lexer) error(s string) {
 	l.report(s, false)
 }
 
+// wait waits for the lexer to finish.
+func (l *lexer) wait() {
+	for range l.token {
+	}
+}
+
 // report records an error. The lexer runs ahead of the parser, so an
 // error of the parser replaces one of the lexer, but not vice versa.
 func (l *lexer) report(s string, parser bool) {
